@@ -151,6 +151,10 @@ func cmdTokens(args []string) {
 			e2 := ent
 			if i%4 == 1 {
 				e2 = 0 // a password of a recipe without any choice has zero entropy
+			} else if i%16 == 2 {
+				e2 = -1.5
+			} else if i%16 == 6 {
+				e2 = float32(math.NaN())
 			}
 			wantRT = s.Toks
 			emitRT(em, ts, e2, "built")
@@ -169,6 +173,11 @@ func cmdTokens(args []string) {
 				em.Emit(map[string]interface{}{"op": "dec", "str": s.Str, "idx": s.Idx, "res": d2})
 				d3 := decode(FromCPs(s.Str), s.Idx, 0)
 				em.Emit(map[string]interface{}{"op": "dec", "str": s.Str, "idx": s.Idx, "res": d3})
+				// ... whatever it is: the entropy is the caller's statement, passed through bit for bit
+				for _, odd := range []float32{float32(math.NaN()), -2.5, float32(math.Inf(-1)), float32(math.Inf(1)), float32(math.Copysign(0, -1))} {
+					dx := decode(FromCPs(s.Str), s.Idx, odd)
+					em.Emit(map[string]interface{}{"op": "dec", "str": s.Str, "idx": s.Idx, "res": dx})
+				}
 			}
 		case "gen":
 			var p *spg.Password
